@@ -31,10 +31,10 @@ PT_TOL = 1e-9
 
 def floors(tier):
     return {"judged": 3000, "partition_none_free": 50, "partition_some_free": 1000, "partition_all_free": 300,
-            "binding_truncation": 300, "intercepted_calls": 300, "inputs_with_idle_free_variables": 300, "inputs_in_tiny_length_units_with_memory": 150, "restarted_runs": 20, "restarted_runs_with_gradient_scaler": 8, "runs_with_callback_editing_the_state_pairs": 20, "runs_with_optimisation_nested_in_the_callback": 20, "descent_checked": 2000, "__nontrivial__": 250}
+            "binding_truncation": 300, "intercepted_calls": 300, "inputs_with_idle_free_variables": 300, "inputs_in_tiny_length_units_with_memory": 150, "restarted_runs": 20, "restarted_runs_with_gradient_scaler": 8, "restarted_runs_from_a_checkpoint_whose_iteration_counter_was_reset": 6, "runs_with_single_precision_gradient": 10, "inputs_with_single_precision_gradient_array": 300, "runs_with_callback_editing_the_state_pairs": 20, "runs_with_optimisation_nested_in_the_callback": 20, "descent_checked": 2000, "__nontrivial__": 250}
 
 
-def judge_subspace(out, x, xc, g, lb, ub, B, xbar, where, tags, mats=None):
+def judge_subspace(out, x, xc, g, lb, ub, B, xbar, where, tags, mats=None, c=None):
     n = x.size
     kappa = float(np.linalg.cond(B))
     if not np.isfinite(kappa) or kappa > KMAX:
@@ -44,7 +44,15 @@ def judge_subspace(out, x, xc, g, lb, ub, B, xbar, where, tags, mats=None):
     if kmid > 1e12:
         out.count("skipped_ill_conditioned_memory")  # more (or dependent) pairs than variables
         return None
-    ref = ref_subspace(x, xc, g, lb, ub, B)
+    r_full = None
+    if c is not None and mats is not None and has_pairs(mats):
+        # "given the Cauchy point": the model gradient there as the auxiliary vector handed over with it defines it,
+        # g + theta (xc - x) - W M c (identical to g + B (xc - x) when c = W^T (xc - x); in a run c carries the rounding of the
+        # Cauchy search, which works in the precision of the gradient array the user returned)
+        from lbfgsb.bfgsmats import bmv
+
+        r_full = g + mats.theta * (xc - x) - mats.W @ bmv(mats.invMfactors, np.asarray(c, dtype=float))
+    ref = ref_subspace(x, xc, g, lb, ub, B, r_full=r_full)
     out.count("judged")
     free = ref["free"]
     if free.size == 0:
@@ -124,6 +132,7 @@ def call_subspace(x, xc, c, g, lb, ub, mats):
 
 
 def synthetic_input(out, keys, x, g, lb, ub, mats, B, where, tags):
+    g_given, g = g, np.asarray(g, dtype=float)  # the reference works in double precision on the values it was given
     if not (gen.pg_inf(x, g, lb, ub) > 0):
         out.count("skipped_zero_projection")
         return
@@ -140,7 +149,7 @@ def synthetic_input(out, keys, x, g, lb, ub, mats, B, where, tags):
     xc = np.clip(xc, lb, ub)
     c = mats.W.T @ r["z"] if has_pairs(mats) else np.zeros(mats.W.shape[1])
     try:
-        xbar = call_subspace(x, xc, c, g, lb, ub, mats)
+        xbar = call_subspace(x, xc, c, g_given, lb, ub, mats)
     except Exception as e:
         out.violate("subspace_raised", f"{where}: {e!r}; x={x.tolist()} xc={xc.tolist()} g={g.tolist()} lb={lb.tolist()} ub={ub.tolist()}", **tags)
         return
@@ -177,7 +186,8 @@ def cases(tier, seed):
                "eps_SY": float(gen.pick(rng, [2.2e-16, 2.2e-16, 1e-3, 1e-2, 0.1])),
                "restart_after": int(rng.integers(2, 8)) if i % 3 == 1 else 0,
                "restart_scaler": float(np.exp(rng.uniform(np.log(1e-3), np.log(1e2)))) if i % 2 == 1 else None,
-               "cb_edits_pairs": bool(i % 4 == 2), "cb_nested": bool(i % 4 == 0)}
+               "cb_edits_pairs": bool(i % 4 == 2), "cb_nested": bool(i % 4 == 0),
+               "restart_reset_nit": bool(i % 6 == 1), "grad_dtype": "float32" if i % 5 == 3 else None}
     del itertools
 
 
@@ -244,6 +254,9 @@ def run(spec):
                     lb, ub, x, g = lb * xunit, ub * xunit, x * xunit, g * xunit
                     if npairs > 0:
                         out.count("inputs_in_tiny_length_units_with_memory")
+                if j % 5 == 2:
+                    g = g.astype(np.float32)  # a gradient array in single precision (its values are what they are)
+                    out.count("inputs_with_single_precision_gradient_array")
                 if idle is not None:
                     g[idle] = 0.0
                     for i in idle:  # strictly inside a finite interval
@@ -266,7 +279,7 @@ def run(spec):
                     out.count("probe_args_unavailable")
                     return
                 out.count("intercepted_calls")
-                x, xc, g, lbv, ubv, mats = a["x"], a["xc"], a["grad"], a["lb"], a["ub"], a["mats"]
+                x, xc, g, lbv, ubv, mats = a["x"], a["xc"], np.asarray(a["grad"], dtype=float), a["lb"], a["ub"], a["mats"]
                 if not probes.in_box(x, lbv, ubv) or not probes.in_box(xc, lbv, ubv):
                     out.count("skipped_infeasible_input")
                     return
@@ -287,7 +300,7 @@ def run(spec):
                     except RuntimeError:
                         consistent = False
                 ref = judge_subspace(out, x, xc, g, lbv, ubv, B, ev["ret"],
-                                     f"run {spec['problem']['family']} call #{ic.calls['subspace_minimization']}", dict(source="run"), mats=mats)
+                                     f"run {spec['problem']['family']} call #{ic.calls['subspace_minimization']}", dict(source="run"), mats=mats, c=a["c"])
                 if ref is not None and not out.violations:
                     check_descent(out, x, g, lbv, ubv, ev["ret"], "run", dict(source="run"), consistent)
                     if 0 < ref["free"].size < x.size and ref["alpha"] < 1.0:
@@ -297,6 +310,9 @@ def run(spec):
 
             cfg = dict(jac="callable", maxcor=spec["maxcor"], maxiter=spec["maxiter"], ftol=0.0, gtol=1e-10, maxfun=3000, eps_SY=spec.get("eps_SY", 2.2e-16))
             hooks = {}
+            if spec.get("grad_dtype"):
+                cfg["grad_dtype"] = spec["grad_dtype"]  # the user's gradient code works in single precision
+                out.count("runs_with_single_precision_gradient")
             if spec.get("cb_nested"):
                 # the callback runs another optimisation of the same dimension on another box before returning False
                 cfg["cb"] = "never"
@@ -330,7 +346,16 @@ def run(spec):
                         if spec.get("restart_scaler"):
                             c2["scaler"] = spec["restart_scaler"]  # a gradient scaler introduced on the restart leg
                             out.count("restarted_runs_with_gradient_scaler")
-                        tr = probes.run_min(P, c2, hooks=hooks, checkpoint=first.result, x0=np.array(first.result.x, dtype=float, copy=True))
+                        ck = first.result
+                        if spec.get("restart_reset_nit"):
+                            # the user grants the continuation a fresh iteration budget by resetting the counter of the checkpoint
+                            # (the curvature memory it carries is not empty)
+                            import copy as _copy
+
+                            ck = _copy.deepcopy(first.result)
+                            ck.nit = 0
+                            out.count("restarted_runs_from_a_checkpoint_whose_iteration_counter_was_reset")
+                        tr = probes.run_min(P, c2, hooks=hooks, checkpoint=ck, x0=np.array(first.result.x, dtype=float, copy=True))
                     else:
                         tr = first
                 else:
